@@ -1,1 +1,488 @@
-//! Skeleton mode (R-skel) -- see DESIGN.md 2.1.
+//! Skeleton mode (R-skel, DESIGN.md 2.1): from the real body of a closure / function, keep
+//!   * control flow (if / match / loops / early exits / closures as separate units),
+//!   * the occurrences of the *declared primitives* (guards, effects, contracted callees), in
+//!     evaluation order, with the argument positions the unit file asks for,
+//! and drop every other computation.  Conditions become `sk_nondet()`.  The result is a Verus
+//! function whose obligations are the primitives' preconditions.
+//!
+//! Everything dropped is data computation; what is kept is decided by the `prims` table of the unit
+//! file, and every kept occurrence is reported (`events`) with its source line so that the scan can
+//! check that no primitive occurrence lies outside a skeleton.
+
+use crate::{norm, SourceFile};
+use serde_json::{json, Value};
+use syn::spanned::Spanned;
+use syn::*;
+
+#[derive(Clone, Debug)]
+pub struct Prim {
+    pub kind: String,        // "method" | "call" | "field" | "macro"
+    pub name: String,        // method / field / macro name, or normalized path suffix for calls
+    pub nargs: Option<usize>,
+    pub emit: String,        // text to emit; placeholders: {argN} (N-th argument, see `arg_mode`),
+    // {last_seg_argN} (last path segment of the N-th argument, e.g. `&builtin_permissions::PRINT` -> PRINT)
+    pub try_emit: Option<String>, // emitted instead when the occurrence is directly under `?`
+    pub arg_contains: Option<String>, // only if the normalized argument text contains this
+}
+
+pub struct Skel<'a> {
+    pub sf: &'a SourceFile,
+    pub prims: Vec<Prim>,
+    pub events: Vec<Value>,
+    pub unsupported: Vec<String>,
+    pub closures: Vec<(String, String)>, // (name, body text) of closure skeletons
+    pub name: String,
+    pub ret_early: String,
+    pub keep_idents: Vec<String>,
+    ind: usize,
+}
+
+fn last_seg(e: &Expr) -> Option<String> {
+    match e {
+        Expr::Reference(r) => last_seg(&r.expr),
+        Expr::Paren(p) => last_seg(&p.expr),
+        Expr::Path(p) => p.path.segments.last().map(|s| s.ident.to_string()),
+        _ => None,
+    }
+}
+
+fn path_text(p: &Path) -> String {
+    p.segments.iter().map(|s| s.ident.to_string()).collect::<Vec<_>>().join("::")
+}
+
+impl<'a> Skel<'a> {
+    pub fn new(sf: &'a SourceFile, cfg: &Value, name: &str) -> Self {
+        let mut prims = vec![];
+        if let Some(a) = cfg["prims"].as_array() {
+            for p in a {
+                prims.push(Prim {
+                    kind: p["kind"].as_str().unwrap_or("").to_string(),
+                    name: p["name"].as_str().unwrap_or("").to_string(),
+                    nargs: p["nargs"].as_u64().map(|x| x as usize),
+                    emit: p["emit"].as_str().unwrap_or("").to_string(),
+                    try_emit: p["try_emit"].as_str().map(|s| s.to_string()),
+                    arg_contains: p["arg_contains"].as_str().map(|s| norm(s)),
+                });
+            }
+        }
+        Skel {
+            sf,
+            prims,
+            events: vec![],
+            unsupported: vec![],
+            closures: vec![],
+            name: name.to_string(),
+            ret_early: cfg["early_return"].as_str().unwrap_or("return sk_ret();").to_string(),
+            keep_idents: cfg["keep_idents"].as_array().map(|a| a.iter().filter_map(|x| x.as_str().map(|s| s.to_string())).collect()).unwrap_or_default(),
+            ind: 1,
+        }
+    }
+
+    fn line(&self, sp: proc_macro2::Span) -> usize {
+        self.sf.line_of(self.sf.range(sp).0)
+    }
+    fn src(&self, sp: proc_macro2::Span) -> String {
+        self.sf.slice(self.sf.range(sp)).to_string()
+    }
+    fn pad(&self) -> String {
+        "    ".repeat(self.ind)
+    }
+
+    /// render an argument "precisely" if it only consists of kept identifiers, literals and
+    /// boolean/comparison operators; otherwise None
+    fn precise(&self, e: &Expr) -> Option<String> {
+        match e {
+            Expr::Lit(l) => Some(self.src(l.span())),
+            Expr::Path(p) if p.path.segments.len() == 1 => {
+                let id = p.path.segments[0].ident.to_string();
+                if self.keep_idents.contains(&id) {
+                    Some(id)
+                } else {
+                    None
+                }
+            }
+            Expr::Paren(p) => self.precise(&p.expr).map(|s| format!("({})", s)),
+            Expr::Unary(u) if matches!(u.op, UnOp::Not(_)) => self.precise(&u.expr).map(|s| format!("!{}", s)),
+            Expr::Binary(b) if matches!(b.op, BinOp::And(_) | BinOp::Or(_) | BinOp::Eq(_) | BinOp::Ne(_)) => {
+                let l = self.precise(&b.left)?;
+                let r = self.precise(&b.right)?;
+                Some(format!("{} {} {}", l, self.src(b.op.span()), r))
+            }
+            _ => None,
+        }
+    }
+
+    fn emit_prim(&mut self, p: &Prim, args: &[&Expr], sp: proc_macro2::Span, under_try: bool, out: &mut Vec<String>) {
+        let mut text = if under_try { p.try_emit.clone().unwrap_or_else(|| p.emit.clone()) } else { p.emit.clone() };
+        for (i, a) in args.iter().enumerate() {
+            let ph = format!("{{arg{}}}", i);
+            if text.contains(&ph) {
+                let v = self.precise(a).unwrap_or_else(|| "sk_nondet()".to_string());
+                text = text.replace(&ph, &v);
+            }
+            let ph2 = format!("{{last_seg_arg{}}}", i);
+            if text.contains(&ph2) {
+                match last_seg(a) {
+                    Some(s) => text = text.replace(&ph2, &s),
+                    None => self.unsupported.push(format!("line {}: argument {} of `{}` is not a path", self.line(sp), i, p.name)),
+                }
+            }
+        }
+        self.events.push(json!({"prim": p.name, "kind": p.kind, "line": self.line(sp), "under_try": under_try, "emitted": text}));
+        out.push(format!("{}{} // <- {}:{}", self.pad(), text, self.sf.path, self.line(sp)));
+    }
+
+    fn find_prim(&self, kind: &str, name: &str, nargs: usize, argtext: &str) -> Option<Prim> {
+        for p in &self.prims {
+            if p.kind != kind {
+                continue;
+            }
+            let name_ok = if kind == "call" { name == p.name || name.ends_with(&format!("::{}", p.name)) } else { name == p.name };
+            if !name_ok {
+                continue;
+            }
+            if let Some(n) = p.nargs {
+                if n != nargs {
+                    continue;
+                }
+            }
+            if let Some(c) = &p.arg_contains {
+                if !argtext.contains(c.as_str()) {
+                    continue;
+                }
+            }
+            return Some(p.clone());
+        }
+        None
+    }
+
+    fn has_events_expr(&mut self, e: &Expr) -> bool {
+        let mut tmp: Vec<String> = vec![];
+        let saved_events = self.events.len();
+        let saved_uns = self.unsupported.len();
+        let saved_cl = self.closures.len();
+        self.expr(e, false, &mut tmp);
+        let has = !tmp.is_empty() || self.closures.len() > saved_cl;
+        self.events.truncate(saved_events);
+        self.unsupported.truncate(saved_uns);
+        self.closures.truncate(saved_cl);
+        has
+    }
+
+    pub fn block(&mut self, b: &Block, out: &mut Vec<String>) {
+        for s in &b.stmts {
+            self.stmt(s, out);
+        }
+    }
+
+    fn stmt(&mut self, s: &Stmt, out: &mut Vec<String>) {
+        match s {
+            Stmt::Local(l) => {
+                if let Some(init) = &l.init {
+                    self.expr(&init.expr, false, out);
+                    if let Some((_, d)) = &init.diverge {
+                        let mut inner = vec![];
+                        self.ind += 1;
+                        self.expr(d, false, &mut inner);
+                        self.ind -= 1;
+                        out.push(format!("{}if sk_nondet() {{ // let-else diverges", self.pad()));
+                        out.extend(inner);
+                        out.push(format!("{}    {}", self.pad(), self.ret_early));
+                        out.push(format!("{}}}", self.pad()));
+                    }
+                }
+            }
+            Stmt::Item(_) => {}
+            Stmt::Expr(e, _) => self.expr(e, false, out),
+            Stmt::Macro(m) => self.mac(&m.mac, out),
+        }
+    }
+
+    fn mac(&mut self, m: &Macro, out: &mut Vec<String>) {
+        let name = m.path.segments.last().map(|s| s.ident.to_string()).unwrap_or_default();
+        let parsed = m.parse_body_with(punctuated::Punctuated::<Expr, Token![,]>::parse_terminated);
+        match parsed {
+            Ok(exprs) => {
+                let v: Vec<Expr> = exprs.into_iter().collect();
+                let leaked: &'static [Expr] = Box::leak(v.into_boxed_slice());
+                for e in leaked {
+                    self.expr(e, false, out);
+                }
+                let argtext = norm(&m.tokens.to_string());
+                if let Some(p) = self.find_prim("macro", &name, leaked.len(), &argtext) {
+                    let args: Vec<&Expr> = leaked.iter().collect();
+                    self.emit_prim(&p, &args, m.span(), false, out);
+                }
+                // macros that return early on an error value
+                if ["xraise", "xraise_opt", "forward_err"].contains(&name.as_str()) {
+                    out.push(format!("{}if sk_nondet() {{ {} }} // {}! may return early", self.pad(), self.ret_early, name));
+                }
+            }
+            Err(_) => {
+                // cannot see inside: refuse if any primitive name occurs in the raw tokens
+                let raw = m.tokens.to_string();
+                for p in &self.prims {
+                    let last = p.name.rsplit("::").next().unwrap_or(&p.name);
+                    if raw.contains(last) {
+                        self.unsupported.push(format!("line {}: macro `{}!` with unparsable body mentions primitive `{}`", self.line(m.span()), name, p.name));
+                    }
+                }
+            }
+        }
+    }
+
+    fn branchy(&mut self, branches: Vec<Vec<String>>, out: &mut Vec<String>, what: &str) {
+        if branches.iter().all(|b| b.is_empty()) {
+            return;
+        }
+        let n = branches.len();
+        for (i, b) in branches.into_iter().enumerate() {
+            if i == 0 {
+                out.push(format!("{}if sk_nondet() {{ // {}", self.pad(), what));
+            } else if i + 1 == n {
+                out.push(format!("{}}} else {{", self.pad()));
+            } else {
+                out.push(format!("{}}} else if sk_nondet() {{", self.pad()));
+            }
+            out.extend(b);
+        }
+        out.push(format!("{}}}", self.pad()));
+    }
+
+    fn sub<F: FnOnce(&mut Self, &mut Vec<String>)>(&mut self, f: F) -> Vec<String> {
+        let mut v = vec![];
+        self.ind += 1;
+        f(self, &mut v);
+        self.ind -= 1;
+        v
+    }
+
+    pub fn expr(&mut self, e: &Expr, under_try: bool, out: &mut Vec<String>) {
+        match e {
+            Expr::Try(t) => {
+                // a primitive directly under `?`
+                let before = out.len();
+                self.expr(&t.expr, true, out);
+                let emitted_try = out.len() > before && out.last().map(|l| l.contains("?;")).unwrap_or(false);
+                if !emitted_try {
+                    out.push(format!("{}if sk_nondet() {{ {} }} // `?`", self.pad(), self.ret_early));
+                }
+            }
+            Expr::MethodCall(m) => {
+                self.expr(&m.receiver, false, out);
+                for a in &m.args {
+                    self.expr(a, false, out);
+                }
+                let name = m.method.to_string();
+                let argtext = m.args.iter().map(|a| norm(&self.src(a.span()))).collect::<Vec<_>>().join(",");
+                if let Some(p) = self.find_prim("method", &name, m.args.len(), &argtext) {
+                    let args: Vec<&Expr> = m.args.iter().collect();
+                    self.emit_prim(&p, &args, m.span(), under_try, out);
+                }
+            }
+            Expr::Call(c) => {
+                self.expr(&c.func, false, out);
+                for a in &c.args {
+                    self.expr(a, false, out);
+                }
+                if let Expr::Path(p) = &*c.func {
+                    let pt = path_text(&p.path);
+                    let argtext = c.args.iter().map(|a| norm(&self.src(a.span()))).collect::<Vec<_>>().join(",");
+                    if let Some(pr) = self.find_prim("call", &pt, c.args.len(), &argtext) {
+                        let args: Vec<&Expr> = c.args.iter().collect();
+                        self.emit_prim(&pr, &args, c.span(), under_try, out);
+                    }
+                }
+            }
+            Expr::Field(f) => {
+                self.expr(&f.base, false, out);
+                if let Member::Named(id) = &f.member {
+                    if let Some(p) = self.find_prim("field", &id.to_string(), 0, "") {
+                        self.emit_prim(&p, &[], f.span(), under_try, out);
+                    }
+                }
+            }
+            Expr::Macro(m) => self.mac(&m.mac, out),
+            Expr::If(i) => {
+                self.expr(&i.cond, false, out);
+                let t = self.sub(|s, v| s.block(&i.then_branch, v));
+                let el = match &i.else_branch {
+                    Some((_, eb)) => self.sub(|s, v| s.expr(eb, false, v)),
+                    None => vec![],
+                };
+                self.branchy(vec![t, el], out, "if");
+            }
+            Expr::Match(m) => {
+                self.expr(&m.expr, false, out);
+                let mut brs = vec![];
+                for arm in &m.arms {
+                    let b = self.sub(|s, v| {
+                        if let Some((_, g)) = &arm.guard {
+                            s.expr(g, false, v);
+                        }
+                        s.expr(&arm.body, false, v);
+                    });
+                    brs.push(b);
+                }
+                if brs.len() == 1 {
+                    brs.push(vec![]);
+                }
+                self.branchy(brs, out, "match");
+            }
+            Expr::Block(b) => self.block(&b.block, out),
+            Expr::Unsafe(b) => self.block(&b.block, out),
+            Expr::Paren(p) => self.expr(&p.expr, under_try, out),
+            Expr::Group(p) => self.expr(&p.expr, under_try, out),
+            Expr::Reference(r) => self.expr(&r.expr, false, out),
+            Expr::Unary(u) => self.expr(&u.expr, false, out),
+            Expr::Cast(c) => self.expr(&c.expr, false, out),
+            Expr::Binary(b) => {
+                self.expr(&b.left, false, out);
+                if matches!(b.op, BinOp::And(_) | BinOp::Or(_)) {
+                    let r = self.sub(|s, v| s.expr(&b.right, false, v));
+                    self.branchy(vec![r, vec![]], out, "short-circuit operand");
+                } else {
+                    self.expr(&b.right, false, out);
+                }
+            }
+            Expr::Index(i) => {
+                self.expr(&i.expr, false, out);
+                self.expr(&i.index, false, out);
+            }
+            Expr::Tuple(t) => {
+                for x in &t.elems {
+                    self.expr(x, false, out);
+                }
+            }
+            Expr::Array(t) => {
+                for x in &t.elems {
+                    self.expr(x, false, out);
+                }
+            }
+            Expr::Struct(s) => {
+                for f in &s.fields {
+                    self.expr(&f.expr, false, out);
+                }
+                if let Some(r) = &s.rest {
+                    self.expr(r, false, out);
+                }
+            }
+            Expr::Repeat(r) => {
+                self.expr(&r.expr, false, out);
+            }
+            Expr::Let(l) => self.expr(&l.expr, false, out),
+            Expr::Assign(a) => {
+                self.expr(&a.right, false, out);
+                self.expr(&a.left, false, out);
+            }
+            Expr::Range(r) => {
+                if let Some(s) = &r.start {
+                    self.expr(s, false, out);
+                }
+                if let Some(s) = &r.end {
+                    self.expr(s, false, out);
+                }
+            }
+            Expr::Return(r) => {
+                if let Some(x) = &r.expr {
+                    self.expr(x, false, out);
+                }
+                out.push(format!("{}{}", self.pad(), self.ret_early));
+            }
+            Expr::Break(b) => {
+                if let Some(x) = &b.expr {
+                    self.expr(x, false, out);
+                }
+                // leaving a loop early only removes paths of the over-approximating `while sk_nondet()`
+            }
+            Expr::Continue(_) => {}
+            Expr::While(w) => {
+                self.expr(&w.cond, false, out);
+                let b = self.sub(|s, v| {
+                    s.block(&w.body, v);
+                    s.expr(&w.cond, false, v);
+                });
+                if !b.is_empty() {
+                    out.push(format!("{}while sk_nondet() {{", self.pad()));
+                    out.extend(b);
+                    out.push(format!("{}}}", self.pad()));
+                }
+            }
+            Expr::Loop(l) => {
+                let b = self.sub(|s, v| s.block(&l.body, v));
+                if !b.is_empty() {
+                    out.push(format!("{}while sk_nondet() {{", self.pad()));
+                    out.extend(b);
+                    out.push(format!("{}}}", self.pad()));
+                }
+            }
+            Expr::ForLoop(f) => {
+                self.expr(&f.expr, false, out);
+                let b = self.sub(|s, v| s.block(&f.body, v));
+                if !b.is_empty() {
+                    out.push(format!("{}while sk_nondet() {{", self.pad()));
+                    out.extend(b);
+                    out.push(format!("{}}}", self.pad()));
+                }
+            }
+            Expr::Closure(c) => {
+                // a closure body runs at an unknown later time, possibly never: its skeleton is a
+                // separate function with no ambient facts (conservative)
+                if self.has_events_expr(&c.body) {
+                    let k = self.closures.len() + 1;
+                    let cname = format!("{}_closure{}", self.name, k);
+                    let saved_ind = self.ind;
+                    self.ind = 1;
+                    let mut body = vec![];
+                    // reserve the slot first so nested closures get later ordinals
+                    self.closures.push((cname.clone(), String::new()));
+                    self.expr(&c.body, false, &mut body);
+                    self.ind = saved_ind;
+                    let idx = self.closures.iter().position(|(n, _)| *n == cname).unwrap();
+                    self.closures[idx].1 = body.join("\n");
+                    out.push(format!("{}// closure at {}:{} -> fn {}", self.pad(), self.sf.path, self.line(c.span()), cname));
+                }
+            }
+            Expr::Path(_) | Expr::Lit(_) | Expr::Infer(_) | Expr::Verbatim(_) => {}
+            Expr::Async(_) | Expr::Await(_) | Expr::Const(_) | Expr::TryBlock(_) | Expr::Yield(_) => {
+                self.unsupported.push(format!("line {}: expression form outside R-skel", self.line(e.span())));
+            }
+            _ => {}
+        }
+    }
+}
+
+/// Build the skeleton function(s) for a selected body.
+pub fn build(sf: &SourceFile, cfg: &Value, name: &str, body: SkBody) -> (String, Vec<Value>, Vec<String>) {
+    let mut sk = Skel::new(sf, cfg, name);
+    let mut out = vec![];
+    match body {
+        SkBody::Block(b) => sk.block(b, &mut out),
+        SkBody::Expr(e) => sk.expr(e, false, &mut out),
+    }
+    let header = cfg["header"].as_str().map(|s| s.to_string()).unwrap_or_else(|| format!("fn {}() -> (r: Result<(), Viol>)", name));
+    let closure_header = cfg["closure_header"].as_str().unwrap_or("fn {name}() -> (r: Result<(), Viol>)").to_string();
+    let tail = cfg["tail"].as_str().unwrap_or("Ok(())").to_string();
+    let attr = cfg["attr"].as_str().unwrap_or("#[verifier::loop_isolation(false)]");
+    let mut text = String::new();
+    text.push_str(&format!("{}\n{}\n{{\n", attr, header.trim()));
+    if cfg["canary"].as_bool().unwrap_or(false) {
+        text.push_str("    assert(false); /* vx canary */\n");
+    }
+    text.push_str(&out.join("\n"));
+    text.push_str(&format!("\n    {}\n}}\n", tail));
+    for (cname, cbody) in &sk.closures {
+        text.push_str(&format!("{}\n{}\n{{\n", attr, closure_header.replace("{name}", cname)));
+        if cfg["canary"].as_bool().unwrap_or(false) {
+            text.push_str("    assert(false); /* vx canary */\n");
+        }
+        text.push_str(cbody);
+        text.push_str(&format!("\n    {}\n}}\n", tail));
+    }
+    (text, sk.events, sk.unsupported)
+}
+
+pub enum SkBody<'a> {
+    Block(&'a Block),
+    Expr(&'a Expr),
+}
